@@ -99,7 +99,7 @@ def reader_fragment_rules(ck, d, P):
                     sb = c01.storage_box(w)
                     if sb is not None:
                         post.append(le(gse - L - 5, d.I.seq_len(w, sb[1])))
-                    zero_fact = any(isinstance(k, tuple) and k and k[0] == 'eq' and vv is True for k, vv in w.facts.items())
+                    zero_fact = zero_array_established(w)
                     if nm == 'ErrorInvalidLabel' and zero_fact:
                         ck.discharged += 1
                         continue
